@@ -646,7 +646,8 @@ def format_requests(rng, quick=True):
             add(sectors - 1, bpc=bpc)
     # 4. labels, ids, media, tail (device larger than the volume)
     for k in range(12 if quick else 100):
-        add(rng.choice([100, 2880, 8192, 70000, 300000]), label=[rng.choice([65, 97, 32, 229, 5, 255, 46]) for _ in range(11)],
+        # (a label is given as raw 8.3 bytes: a first byte of 0x00 / 0xE5 / space would not be a label at all)
+        add(rng.choice([100, 2880, 8192, 70000, 300000]), label=[rng.choice([65, 97, 5, 255, 46])] + [rng.choice([65, 97, 32, 229, 5, 255, 46]) for _ in range(10)],
             volid=rng.randrange(1 << 32), media=rng.choice([0xF0, 0xF8, 0xFF, 0x00]), tail=4096)
     # 5. dense random grid
     for _ in range(300 if quick else 20000):
